@@ -3,6 +3,15 @@
 Model: coq/Model/Select.v (GreedySelector.fit for an arbitrary scorer given as the stream of
 score vectors the implementation presented to _get_best_new_selection).  The harness wraps the
 selector's public `score` method (harness-side wrapper, no source hook) to record that stream.
+
+Extension (round 3): every chain is ALSO run through the buffer-level model coq/Model/SelBuf.v
+(`bchain_ok`): n_selected_ and the selected_idx_/X_selected_/y_selected_ buffers with their capacity,
+np.pad + prefix assignment of a warm start, the truncations of the threshold exit, binary64 threshold
+tests on float scores (absolute and RELATIVE), strict consumption of the score stream.  That model is
+faithful after a threshold stop too, so chains are warm-continued through stops: after a stop with no
+selection before the loop (cold CUR / PCov-CUR) the state is consistent and the property must hold;
+after a stop that cut selections off (known finding F2) the model predicts the broadcast duplicate /
+ValueError / IndexError that follows, and only an outcome the model reproduces is filed under F2.
 """
 import math
 import struct
@@ -52,6 +61,17 @@ def gen_case(rng, quick):
     if needs_y or rng.random() < 0.4:
         y = S.gen_y(rng, n, rng.choice([1, 1, 2, 3]))
     case = dict(kind=kind, axis=axis, X=X, y=y, family=fam, extra={})
+    # 1-D targets (fit reshapes them to a column)
+    case["y1d"] = bool(y is not None and len(y[0]) == 1 and rng.random() < 0.5)
+    # an earlier fit of the same object on OTHER data (a cold fit must forget it completely)
+    if rng.random() < 0.15:
+        pn, pd = rng.randint(3, nmax), rng.randint(3, dmax)
+        case["prefit"] = dict(X=S.gen_matrix(rng, pn, pd, "uniform"),
+                              y=(S.gen_y(rng, pn, rng.choice([1, 2])) if (needs_y or rng.random() < 0.5) else None),
+                              nts=rng.randint(1, min(pn, pd)), thr=rng.random() < 0.5)
+    # new data for transform (feature selection): other number of rows, same columns
+    if axis == 1 and rng.random() < 0.5:
+        case["X2"] = S.gen_matrix(rng, rng.randint(1, 5), d, "uniform")
     if kind in ("pcovfps", "pcovcur"):
         case["extra"]["mixing"] = rng.choice([0.0, 0.25, 0.5, 0.75])
     if kind in ("cur", "pcovcur"):
@@ -65,6 +85,7 @@ def gen_case(rng, quick):
         r = rng.random()
         if kind == "fps" and r < 0.35:
             case["init"] = rng.sample(range(ncand), rng.randint(1, min(3, ncand)))
+            case["init_nd"] = rng.random() < 0.3        # passed as numpy array
         elif r < 0.8:
             case["init"] = rng.randrange(ncand)
         else:
@@ -73,6 +94,11 @@ def gen_case(rng, quick):
     # chain of stages
     stages = []
     nstage = rng.choice([1, 1, 2, 3])
+    # directed: a cold CUR / PCov-CUR fit stopped by the threshold (no selection precedes its loop, the
+    # state stays consistent) and then warm-continued
+    stop_then_warm = kind in ("cur", "pcovcur") and rng.random() < 0.3
+    if stop_then_warm:
+        nstage = max(nstage, 2)
     cur = max(ninit, 1)
     for si in range(nstage):
         r = rng.random()
@@ -91,9 +117,15 @@ def gen_case(rng, quick):
             k = nts
         cur = k
         tr = rng.random()
+        if stop_then_warm:
+            tr = 0.0 if si == 0 else 0.9
         if tr < 0.45:
             st["thr_kind"] = rng.choice(["absolute", "relative"])
             st["thr_pos"] = rng.random()          # realised below, relative to observed scores
+        elif tr < 0.55:
+            st["full"] = True                     # full=True without a threshold is accepted
+        if isinstance(st["nts"], int) and rng.random() < 0.1:
+            st["nts_np"] = True                   # numpy integer (numbers.Integral)
         if si > 0 and rng.random() < 0.25:
             # cold re-fit of the already fitted object (possibly another initialisation / a smaller request)
             st["cold"] = True
@@ -107,8 +139,13 @@ def gen_case(rng, quick):
     case["stages"] = stages
     # malformed stream: a few rejection probes
     if rng.random() < 0.12:
-        bad = rng.choice(["zero", "toolarge", "negfrac", "bigfrac", "full_thr", "warm_unfitted"])
+        bad = rng.choice(["zero", "toolarge", "negfrac", "bigfrac", "full_thr", "warm_unfitted", "nts_str"])
         case["bad"] = bad
+        # the rejected call sits anywhere in the chain: the stages after it see the state it must
+        # have left untouched
+        case["bad_pos"] = rng.randint(0, len(stages))
+        if bad == "warm_unfitted":
+            case.pop("prefit", None)      # the probe needs a never-fitted object
     return case
 
 
@@ -162,9 +199,26 @@ def run_impl(case, rng_thr=None):
         Y = Y[:, 0]
     kw = dict(case["extra"])
     if case["init"] is not None:
-        kw["initialize"] = case["init"]
+        kw["initialize"] = np.array(case["init"]) if case.get("init_nd") else case["init"]
     bad = case.get("bad")
     sel = S.make_selector(case["kind"], case["axis"], **kw)
+    pf = case.get("prefit")
+    if pf is not None:
+        sel.n_to_select = pf["nts"]
+        init_keep = getattr(sel, "initialize", None)
+        if init_keep is not None:
+            sel.initialize = 0          # the chain's initial selections may not exist in the other data
+        if pf["thr"]:
+            sel.score_threshold = 1e-3 if case["kind"] in ("cur", "pcovcur") else 40.0
+        with warnings.catch_warnings():
+            warnings.simplefilter("ignore")
+            if pf["y"] is None:
+                sel.fit(np.array(pf["X"], dtype=float))
+            else:
+                sel.fit(np.array(pf["X"], dtype=float), np.array(pf["y"], dtype=float))
+        sel.score_threshold = None
+        if init_keep is not None:
+            sel.initialize = init_keep
     rec = Recorder(sel)
     out = []
     ncand = len(cands(case))
@@ -181,13 +235,15 @@ def run_impl(case, rng_thr=None):
     if bad == "warm_unfitted":
         stages = [dict(nts=2, warm=True, expect="reject")] + stages
     elif bad:
-        nts = {"zero": 0, "toolarge": ncand + 1, "negfrac": -0.2, "bigfrac": 1.5}.get(bad, 2)
+        nts = {"zero": 0, "toolarge": ncand + 1, "negfrac": -0.2, "bigfrac": 1.5, "nts_str": "2"}.get(bad, 2)
         st = dict(nts=nts, expect="reject")
         if bad == "full_thr":
             st.update(full=True, thr_kind="absolute", thr_val=(1, 1))
-        stages = stages + [st]
+        pos = min(case.get("bad_pos", len(stages)), len(stages))
+        stages = stages[:pos] + [st] + stages[pos:]
     fitted = False
-    for st in stages:
+    tainted = False      # a threshold stop cut selections off (F2) and no cold fit happened since
+    for sti, st in enumerate(stages):
         warm = st.get("warm", fitted and not st.get("cold", False))
         if st.get("cold") and "init" in st:
             sel.initialize = st["init"]
@@ -206,12 +262,13 @@ def run_impl(case, rng_thr=None):
                 thr_float = thr[0] / thr[1] / (scale if st.get("thr_kind", "absolute") == "absolute" else 1)
             else:
                 thr_float = thr[2]
-        for k_, v_ in dict(n_to_select=st["nts"], score_threshold=thr_float,
+        nts_param = np.int64(st["nts"]) if st.get("nts_np") else st["nts"]
+        for k_, v_ in dict(n_to_select=nts_param, score_threshold=thr_float,
                            score_threshold_type=st.get("thr_kind", "absolute"),
                            full=st.get("full", False)).items():
             setattr(sel, k_, v_)      # what BaseEstimator.set_params does (VoronoiFPS hides them in **kwargs)
         recd = dict(cfg=dict(nts=st["nts"], thr=thr, thr_kind=st.get("thr_kind"), full=st.get("full", False),
-                             warm=bool(warm)))
+                             warm=bool(warm)), tainted_before=bool(tainted and warm))
         ncalls = len(rec.calls)
         with warnings.catch_warnings(record=True) as w:
             warnings.simplefilter("always")
@@ -225,23 +282,51 @@ def run_impl(case, rng_thr=None):
             except Exception as e:  # noqa
                 recd["error"] = S.err_class(e)
                 recd["error_msg"] = str(e)[:160]
-                del rec.calls[ncalls:]
-        if "error" not in recd:
-            recd["obs"] = observe(sel, X, case["axis"])
+        # the score vectors of this stage (also of a stage that raised inside the search)
         recd["stream"] = [code(v) for v in rec.calls[ncalls:]]
         recd["stream_raw"] = [[float(x) for x in v] for v in rec.calls[ncalls:]]
+        if "error" in recd:
+            del rec.calls[ncalls:]
+        else:
+            recd["obs"] = observe(sel, X, case["axis"])
+            fs = getattr(sel, "first_score_", None)
+            recd["first_score"] = None if fs is None else float(fs)
+            if case.get("X2") is not None:
+                recd["transform2"] = transform_probe(sel, case)
+            if not warm:
+                tainted = False
+            if recd["stopped"] and len(recd["obs"]["sel"]) != recd["obs"]["nsel"]:
+                tainted = True
         recd["init"] = st.get("init", case["init"]) if not warm else None
         out.append(recd)
         if "error" in recd and st.get("expect") != "reject":
             break
-        if recd.get("stopped"):
-            # buffers are inconsistent after a threshold stop (known finding F2): only a cold
-            # re-fit may follow
-            nxt = stages[stages.index(st) + 1:] if st in stages else []
+        if tainted and case["kind"] == "pcovcur":
+            # PCov-CUR reads y_selected_/X_selected_ itself while continuing: outside the buffer
+            # model once they are inconsistent (F2) -> only a cold re-fit may follow
+            nxt = stages[sti + 1:]
             if not (nxt and nxt[0].get("cold")):
                 break
     return dict(stages=out, stream=[code(v) for v in rec.calls], int_scores=int_scores,
                 full_fraction_after=getattr(sel, "full_fraction", None))
+
+
+def transform_probe(sel, case):
+    """transform on NEW data with the fitted width, and its two rejections."""
+    X2 = np.array(case["X2"], dtype=float)
+    r = {}
+    try:
+        r["out"] = C.as_int_matrix(np.asarray(sel.transform(X2), float), "transform(X2)") if X2.size else []
+    except C.InexactOutput:
+        raise
+    except Exception as e:  # noqa
+        r["error"] = S.err_class(e)
+    try:
+        sel.transform(X2[:, :-1])
+        r["narrow"] = "accepted"
+    except Exception as e:  # noqa
+        r["narrow"] = S.err_class(e)
+    return r
 
 
 def realise_threshold(case, st, sel, fitted, int_scores, scale):
@@ -257,9 +342,9 @@ def realise_threshold(case, st, sel, fitted, int_scores, scale):
         if st["thr_kind"] == "absolute":
             return (int(round(pos * dmax * 2)), 2)
         return (int(round(pos * 16)), 16)
-    # float scores (leverage scores in [0, k]); only absolute thresholds are modelled exactly
-    st["thr_kind"] = "absolute"
-    v = float(pos) * 0.8
+    # float scores (leverage scores in [0, k]): the binary64 tests themselves are modelled
+    # (Model/SelBuf.v tst_fabs / tst_frel); relative thresholds a little above 1 stop at once
+    v = float(pos) * (0.8 if st["thr_kind"] == "absolute" else 1.1)
     return (bits(v), 1, v)
 
 
@@ -267,6 +352,8 @@ def realise_threshold(case, st, sel, fitted, int_scores, scale):
 def nts_coq(nts, n):
     if nts is None:
         return "NtsNone"
+    if not isinstance(nts, (int, float)):
+        return "(NtsFrac 0 false)"          # neither None nor a number: the final `else` of the resolution
     if isinstance(nts, int):
         return "(NtsInt %s)" % C.Zl(nts)
     return "(nts_frac %d%%nat %s)" % (n, C.fl(nts))
@@ -289,6 +376,31 @@ def sobs_coq(o, stopped):
         C.natlist(o["sorted"]), C.natlist(o["ordered"]), tr, "true" if stopped else "false")
 
 
+def tst_coq(c, int_scores):
+    thr = c["thr"]
+    if thr is None:
+        return "None"
+    if int_scores or len(thr) < 3:
+        return "(tst_of_thr (%s %s %s))" % ("AbsThr" if c["thr_kind"] == "absolute" else "RelThr",
+                                             C.Zl(thr[0]), C.Zl(thr[1]))
+    return "(%s (%s)%%float)" % ("tst_fabs" if c["thr_kind"] == "absolute" else "tst_frel", C.fl(thr[2]))
+
+
+def bcfg_coq(c, n, int_scores):
+    return "(mk_bcfg %s %s %s %s)" % (nts_coq(c["nts"], n), tst_coq(c, int_scores),
+                                      "true" if c["full"] else "false", "true" if c["warm"] else "false")
+
+
+def warm_after_stop(res):
+    st = res["stages"]
+    return any(st[i].get("stopped") and st[i + 1]["cfg"]["warm"] for i in range(len(st) - 1))
+
+
+def float_relative(res):
+    return (not res["int_scores"]) and any(s["cfg"]["thr"] is not None and s["cfg"]["thr_kind"] == "relative"
+                                           and len(s["cfg"]["thr"]) == 3 for s in res["stages"])
+
+
 def inits_of(case, init):
     if init is None:
         return []
@@ -300,7 +412,36 @@ def inits_of(case, init):
     return [init]
 
 
+def bcase_coq(case, res):
+    """the chain for the buffer-level model (Model/SelBuf.v): every chain, every outcome."""
+    cs = cands(case)
+    n = len(cs)
+    y = "None" if (case["y"] is None or case["axis"] == 1) else "(Some %s)" % C.zmat(case["y"])
+    stages = []
+    for s in res["stages"]:
+        if "obs" in s:
+            o = "(ObsFit %s)" % sobs_coq(s["obs"], s["stopped"])
+        elif s["error"] == "ValueError":
+            o = "ObsValueError"
+        elif s["error"] == "IndexError":
+            o = "ObsIndexError"
+        else:
+            return None
+        inits = [] if s["cfg"]["warm"] else inits_of(case, s.get("init"))
+        stages.append("(%s, %s, %s, %s)" % (bcfg_coq(s["cfg"], n, res["int_scores"]), C.natlist(inits),
+                                            C.zmat(s["stream"]), o))
+    pairs = []
+    if not res["int_scores"]:
+        # the decoder of the IEEE bit patterns is itself checked against float literals
+        for s in res["stages"]:
+            for code_v, raw_v in list(zip(s["stream"], s["stream_raw"]))[:1]:
+                pairs += ["(%s, (%s)%%float)" % (C.Zl(a), C.fl(b)) for a, b in zip(code_v, raw_v)]
+    return "dec_ok [%s] && bchain_ok %s %s None [%s]" % ("; ".join(pairs), C.zmat(cs), y, "; ".join(stages))
+
+
 def case_coq(case, res):
+    if warm_after_stop(res) or float_relative(res):
+        return "true"        # outside Model/Select.v (see its header); covered by bcase_coq
     cs = cands(case)
     n = len(cs)
     y = "None" if (case["y"] is None or case["axis"] == 1) else "(Some %s)" % C.zmat(case["y"])
@@ -325,7 +466,23 @@ def oracle(case, res):
     n = len(cs)
     Y = case["y"]
     prev_nsel = 0
+    f2_hit = None
     for si, s in enumerate(res["stages"]):
+        v = oracle_stage(case, res, si, s, prev_nsel)
+        if v is not None and v[1] != KEY_F2:
+            return v
+        if v is not None and f2_hit is None:
+            f2_hit = v          # known finding: keep looking, it must not mask anything else
+        if "obs" in s:
+            prev_nsel = s["obs"]["nsel"]
+    return f2_hit
+
+
+def oracle_stage(case, res, si, s, prev_nsel):
+    cs = cands(case)
+    n = len(cs)
+    Y = case["y"]
+    if True:
         cfgd = s["cfg"]
         nts = cfgd["nts"]
         valid = (nts is None or (isinstance(nts, int) and 0 < nts <= n)
@@ -333,14 +490,20 @@ def oracle(case, res):
         valid = valid and not (cfgd["full"] and cfgd["thr"] is not None)
         if cfgd["warm"] and (si == 0 or prev_nsel == 0):
             valid = False        # warm start needs a previous fit with at least one selection
+        # a warm start that continues from buffers a threshold stop left inconsistent: whatever
+        # goes wrong here is a consequence of finding F2 (the buffer model must reproduce it
+        # exactly, see run(): a deviation from THAT model is reported separately)
+        f2 = KEY_F2 if s.get("tainted_before") else None
         if "error" in s:
             if valid:
-                return ("stage %d: fit with a valid configuration raised %s: %s"
-                        % (si, s["error"], s.get("error_msg")), fit_error_key(case, s))
+                return ("stage %d: fit with a valid configuration raised %s: %s%s"
+                        % (si, s["error"], s.get("error_msg"),
+                           " (warm start after a threshold stop that cut selected_idx_)" if f2 else ""),
+                        f2 or fit_error_key(case, s))
             if s["error"] != "ValueError":
                 return ("stage %d: invalid configuration rejected with %s instead of ValueError"
                         % (si, s["error"]), None)
-            continue
+            return None
         if not valid:
             return ("stage %d: invalid configuration %r was accepted" % (si, cfgd), None)
         o = s["obs"]
@@ -349,9 +512,13 @@ def oracle(case, res):
         if len(sel) != o["nsel"]:
             return ("stage %d: len(selected_idx_)=%d but n_selected_=%d%s"
                     % (si, len(sel), o["nsel"], " after a score-threshold stop" if s["stopped"] else ""),
-                    KEY_F2 if s["stopped"] else None)
+                    KEY_F2 if s["stopped"] else f2)
         if len(set(sel)) != len(sel):
-            return ("stage %d: duplicate indices %s" % (si, sel), None)
+            return ("stage %d: duplicate indices %s%s" % (si, sel, " (warm start after a threshold stop that "
+                    "cut selected_idx_: the short index buffer was broadcast)" if f2 else ""), f2)
+        if f2:
+            # the remaining clauses compare views of a state that F2 already made inconsistent
+            return ("stage %d: warm start continued from the inconsistent buffers of a threshold stop" % si, f2)
         if any(i < 0 or i >= n for i in sel):
             return ("stage %d: index out of range" % si, None)
         if not s["stopped"] and len(sel) != want:
@@ -371,7 +538,13 @@ def oracle(case, res):
         msg = threshold_claims(case, res, s, prev_nsel if cfgd["warm"] else None)
         if msg:
             return ("stage %d: %s" % (si, msg), None)
-        prev_nsel = o["nsel"]
+        t2 = s.get("transform2")
+        if t2 is not None:
+            if "error" in t2 or t2["out"] != [[row[j] for j in sorted(sel)] for row in case["X2"]]:
+                return ("stage %d: transform of new data does not return exactly the masked columns (%s)"
+                        % (si, t2.get("error", "wrong values")), None)
+            if t2["narrow"] != "ValueError":
+                return ("stage %d: transform of data with another width: %s" % (si, t2["narrow"]), None)
     return None
 
 
@@ -379,11 +552,15 @@ def threshold_claims(case, res, s, prev_nsel):
     """every kept selection had a score at or above the (absolute) threshold when taken, and on a
     stop the best remaining score was below it — read off the recorded score vectors."""
     cfgd = s["cfg"]
-    if cfgd["thr"] is None or cfgd["thr_kind"] != "absolute":
+    if cfgd["thr"] is None:
         return None
     thr = cfgd["thr"]
+    rel = cfgd["thr_kind"] != "absolute"
     scale = 4 if (case["kind"] == "pcovfps" and res["int_scores"]) else 1
-    tval = (thr[0] / thr[1] / scale) if (res["int_scores"] or len(thr) < 3) else thr[2]
+    tval = (thr[0] / thr[1] / (1 if rel else scale)) if (res["int_scores"] or len(thr) < 3) else thr[2]
+    first = s.get("first_score")
+    if rel and first is None:
+        return None
     raw = s.get("stream_raw", [])
     nsel = s["obs"]["nsel"]
     n0 = nsel - (len(raw) - (1 if s["stopped"] else 0))       # selections present before the loop
@@ -398,7 +575,13 @@ def threshold_claims(case, res, s, prev_nsel):
         pos = n0 + t
         if pos < len(s["obs"]["sel"]):
             i = s["obs"]["sel"][pos]
-            if v[i] < tval:
+            if rel:
+                with np.errstate(all="ignore"):
+                    below = bool(np.float64(v[i]) / np.float64(first) < tval)
+                if below:
+                    return ("kept selection %d with score %g / first score %g below the relative threshold %g"
+                            % (i, v[i], first, tval))
+            elif v[i] < tval:
                 return "kept selection %d with score %g below the threshold %g" % (i, v[i], tval)
     return None
 
@@ -412,10 +595,13 @@ def fit_error_key(case, s):
 
 def run(ctx):
     po = C.proof_obligations(ctx.prop, extra_targets=["Model/Resolve.vo"])
-    ncases = 500 if ctx.quick else 8000
+    ncases = 800 if ctx.quick else 8000
     cases, ress = [], []
     stats = dict(kinds={}, stops=0, warm_stages=0, rejects=0, frac=0, none=0, ties=0, multi_y=0,
-                 thr_abs=0, thr_rel=0, errors=0, inexact_skipped=0)
+                 thr_abs=0, thr_rel=0, errors=0, inexact_skipped=0,
+                 y1d=0, prefit=0, full_without_threshold=0, transform_new_data=0, float_relative_thr=0,
+                 warm_after_clean_stop=0, warm_after_cut_stop=dict(duplicate=0, ValueError=0, IndexError=0, other=0),
+                 rejected_mid_chain=0)
     for _ in range(ncases):
         c = gen_case(ctx.rng, ctx.quick)
         try:
@@ -428,15 +614,32 @@ def run(ctx):
         k = "%s/axis%d" % (c["kind"], c["axis"])
         stats["kinds"][k] = stats["kinds"].get(k, 0) + 1
         stats["multi_y"] += c["y"] is not None and len(c["y"][0]) > 1
-        for s in r["stages"]:
+        stats["y1d"] += bool(c.get("y1d"))
+        stats["prefit"] += c.get("prefit") is not None
+        stats["float_relative_thr"] += float_relative(r)
+        for si, s in enumerate(r["stages"]):
             stats["stops"] += bool(s.get("stopped"))
             stats["warm_stages"] += s["cfg"]["warm"] and "obs" in s
             stats["rejects"] += s.get("error") == "ValueError"
+            stats["rejected_mid_chain"] += s.get("error") == "ValueError" and si + 1 < len(r["stages"])
             stats["errors"] += "error" in s and s.get("error") != "ValueError"
             stats["frac"] += isinstance(s["cfg"]["nts"], float)
             stats["none"] += s["cfg"]["nts"] is None
             stats["thr_abs"] += s["cfg"]["thr_kind"] == "absolute" and s["cfg"]["thr"] is not None
             stats["thr_rel"] += s["cfg"]["thr_kind"] == "relative" and s["cfg"]["thr"] is not None
+            stats["full_without_threshold"] += bool(s["cfg"]["full"]) and s["cfg"]["thr"] is None and "obs" in s
+            stats["transform_new_data"] += "transform2" in s
+            if si > 0 and s["cfg"]["warm"] and r["stages"][si - 1].get("stopped"):
+                if s.get("tainted_before"):
+                    w = stats["warm_after_cut_stop"]
+                    if "error" in s:
+                        w[s["error"] if s["error"] in w else "other"] += 1
+                    elif len(set(s["obs"]["sel"])) != len(s["obs"]["sel"]):
+                        w["duplicate"] += 1
+                    else:
+                        w["other"] += 1
+                elif "obs" in s:
+                    stats["warm_after_clean_stop"] += 1
         for v in r["stream"]:
             stats["ties"] += len(v) > 0 and sum(1 for x in v if x == max(v)) > 1
     seen, nontrivial = set(), 0
@@ -449,27 +652,33 @@ def run(ctx):
             nontrivial += 1
         seen.add(h)
     texts = [case_coq(c, r) for c, r in zip(cases, ress)]
-    idx = [i for i, t in enumerate(texts) if t is not None]
-    per = 150
+    btexts = [bcase_coq(c, r) for c, r in zip(cases, ress)]
+    idx = [i for i, t in enumerate(texts) if t is not None and btexts[i] is not None]
+    per = 100
     groups = [idx[i:i + per] for i in range(0, len(idx), per)]
     shards = []
     for g in groups:
         body = ";\n ".join(texts[i] for i in g)
+        bbody = ";\n ".join(btexts[i] for i in g)
         shards.append(C.SHARD_HEAD + "From Coq Require Import PrimFloat.\n"
-                      "From Verif Require Import ListX Greedy Resolve Select.\n"
+                      "From Verif Require Import ListX Greedy Resolve Select SelBuf.\n"
                       "Definition verdicts : list bool := [\n %s].\n"
-                      "Eval vm_compute in (failing verdicts).\n" % body)
+                      "Eval vm_compute in (failing verdicts).\n"
+                      "Definition bverdicts : list bool := [\n %s].\n"
+                      "Eval vm_compute in (failing bverdicts).\n" % (body, bbody))
     outs = C.run_shards(ctx.prop, shards)
-    mismatched, broken = [i for i, t in enumerate(texts) if t is None], []
+    unexpected = [i for i, t in enumerate(texts) if t is None or btexts[i] is None]
+    mismatched, bmismatched, broken = list(unexpected), list(unexpected), []
     for g, (rc, out) in zip(groups, outs):
         lists = C.parse_nat_lists(out)
-        if rc != 0 or len(lists) != 1:
+        if rc != 0 or len(lists) != 2:
             broken.append(out[-1500:])
             continue
         mismatched += [g[k] for k in lists[0]]
+        bmismatched += [g[k] for k in lists[1]]
     # the oracle runs on every case (cheap), so that a violation the model also exhibits is seen
     n_or = 0
-    reported = set()
+    reported = set()          # cases with a violation that is NOT the known finding F2
     for i in range(len(cases)):
         v = oracle(cases[i], ress[i])
         n_or += 1
@@ -477,10 +686,17 @@ def run(ctx):
             msg, key = v
             C.report_violation(ctx, "C01 fails on the implementation: " + msg,
                                dict(case=cases[i], observed=ress[i]), key=key, found_input=True)
-            reported.add(i)
+            if key != KEY_F2:
+                reported.add(i)
+    # a case filed under F2 is still compared with the models: F2 does not excuse any other deviation
     for i in sorted(set(mismatched) - reported):
         C.report_violation(ctx, "correspondence Select model vs implementation broken (oracle accepts the output)",
                            dict(case=cases[i], observed=ress[i], correspondence="schain_ok (Model/Select.v)"),
+                           found_input=False)
+    for i in sorted(set(bmismatched) - reported - set(mismatched)):
+        C.report_violation(ctx, "correspondence buffer-level model vs implementation broken: the state or outcome "
+                                "of a fit differs from Model/SelBuf.v (oracle accepts the output, or files it under F2)",
+                           dict(case=cases[i], observed=ress[i], correspondence="bchain_ok (Model/SelBuf.v)"),
                            found_input=False)
     for txt in broken:
         C.report_violation(ctx, "correspondence shard did not evaluate", dict(coq_output=txt), found_input=False)
@@ -489,15 +705,18 @@ def run(ctx):
                            dict(theorem_file="coq/Properties/C01.v", log=po["log"][-2000:], scan=po["scan"],
                                 disallowed_axioms=po.get("disallowed_axioms")), found_input=False)
     cur, changed = C.drift_report(ctx.prop, ANCHORS)
+    bad_any = set(mismatched) | set(bmismatched)
     cov = dict(obligations=po["obligations"], discharged=po["discharged"], checker_cmd=po["checker_cmd"],
                theorems=po["theorems"], axioms=po["axioms"],
                trusted_base=C.TRUSTED_BASE_COMMON + [
-                   "score vectors are observed from the implementation (oracle stream); float scores enter through their order-preserving IEEE bit pattern",
-                   "int(n*f) reproduced on Coq primitive binary64 floats"],
+                   "score vectors are observed from the implementation (oracle stream); float scores enter through their order-preserving IEEE bit pattern (decoder dec checked against float literals in every shard)",
+                   "int(n*f) and the float threshold tests reproduced on Coq primitive binary64 floats"],
                evaluations=len(cases), distinct_nontrivial=nontrivial,
                rule="random integer matrices x 5 selector classes x 2 directions x chains of cold/warm fits; "
                     "non-trivial = distinct case with a tie, a threshold stop, a warm start or a fractional n_to_select",
-               traces_validated_against_impl=len(idx) - len(set(mismatched) & set(idx)),
+               traces_validated_against_impl=len(idx) - len(bad_any & set(idx)),
+               chains_in_abstract_model=sum(1 for i in idx if texts[i] != "true"),
+               chains_in_buffer_model=len(idx),
                samples=[dict(case=cases[i], observed=ress[i]) for i in range(min(2, len(cases)))],
                distribution=stats, anchor_drift=changed, oracle_runs=n_or)
     return C.finish(ctx, "proof", cov, ["the scorer is an oracle stream; its correctness is C02/C07"])
